@@ -23,12 +23,12 @@ VARIABLES l, st, viol
 vars == <<l, st, viol>>
 
 NoFrame == [n |-> 0, cause |-> "", kind |-> "", i |-> "", trig |-> {}, ackedX |-> {}, sn |-> 0, mid |-> "",
-            termX |-> {}, nfailed |-> 0, failedNow |-> {}, late |-> {}, retrypub |-> FALSE]
+            termX |-> {}, nfailed |-> 0, failedNow |-> {}, late |-> {}, retrypub |-> FALSE, retrysib |-> FALSE]
 
 NewEx == [notes |-> <<>>, hasrec |-> FALSE, rec |-> <<>>, recstable |-> FALSE, hist |-> <<>>,
           lastnote |-> <<>>, pendingNote |-> FALSE, sm |-> ""]
 
-NoEv == [exec |-> "", stack |-> <<>>, state |-> "", sn |-> 0]
+NoEv == [exec |-> "", stack |-> <<>>, state |-> "", sn |-> 0, stype |-> ""]
 
 Fresh(tid) ==
     [tid |-> tid, b |-> EmptyBroker, msg |-> <<>>, ev |-> <<>>, fr |-> NoFrame, ex |-> <<>>,
@@ -44,9 +44,10 @@ Ev(s, m) == Fn(s.ev, m, NoEv)
 Owner(s, m) == Ev(s, m).exec
 OwnersOf(s, ms) == {Owner(s, m) : m \in ms} \ {""}
 MsgExec(s, sn) == IF sn \in DOMAIN s.msg THEN s.msg[sn].exec ELSE ""
-Running(s) == {x \in DOMAIN s.ex : s.ex[x].notes = <<"RUNNING">>}
-AllTerminal(s) == \A x \in DOMAIN s.ex : Len(s.ex[x].notes) = 2
-IsTerminalX(s, x) == x \in DOMAIN s.ex /\ Len(s.ex[x].notes) >= 2
+LastNote(s, x) == IF x \in DOMAIN s.ex /\ s.ex[x].notes # <<>> THEN s.ex[x].notes[Len(s.ex[x].notes)] ELSE ""
+Running(s) == {x \in DOMAIN s.ex : LastNote(s, x) = "RUNNING"}
+AllTerminal(s) == \A x \in DOMAIN s.ex : LastNote(s, x) \in Terminal
+IsTerminalX(s, x) == \E k \in 1..Len(Ex(s, x).notes) : Ex(s, x).notes[k] \in Terminal
 
 StackIDs(stack) == {stack[i][1] : i \in 1..Len(stack)}
 StackPairs(stack) == {<<stack[i][1], stack[i][2]>> : i \in 1..Len(stack)}
@@ -150,17 +151,22 @@ StepPub(s, e) ==
         frozenev == isev /\ byengine /\ (StackIDs(e.stack) \cap s.failedIDs) # {}
         s1 == [s EXCEPT !.b = Publish(@, e.sn, SeqToSet(e.routed)),
                         !.msg = Upd(@, e.sn, info),
-                        !.ev = IF isev /\ e.mid # "" THEN Upd(@, e.mid, [exec |-> e.exec, stack |-> e.stack, state |-> e.state, sn |-> e.sn]) ELSE @,
+                        !.ev = IF isev /\ e.mid # "" THEN Upd(@, e.mid, [exec |-> e.exec, stack |-> e.stack, state |-> e.state, sn |-> e.sn, stype |-> e.stype]) ELSE @,
                         !.rpcs = IF e.kind = "rpc" /\ e.routed # <<>>
                                  THEN @ \cup {[sn |-> e.sn, corr |-> e.corr, base |-> e.corrbase, exec |-> x, stage |-> "queued", fn |-> e.fn]}
                                  ELSE @,
                         !.launched = IF launch THEN @ \cup {<<top[1], top[2]>>} ELSE @,
                         !.folen = IF launch /\ e.blen >= 0 THEN Upd(@, top[1], e.blen) ELSE @,
                         !.foparent = IF launch THEN Upd(@, top[1], [exec |-> e.exec, parent |-> e.bparent]) ELSE @,
-                        !.fr.retrypub = @ \/ (isev /\ byengine /\ isretry)]
+                        !.fr.retrypub = @ \/ (isev /\ byengine /\ isretry),
+                        (* a fan-out is retried while branches of the failed attempt are still being worked on *)
+                        !.fr.retrysib = @ \/ (isev /\ byengine /\ isretry /\ \E id \in popped : ActiveIdx(s, id) # {})]
         routedok == \A i \in 1..Len(e.routed) : HasQueue(s.b, e.routed[i])
+        (* at most one request per task entry (the correlation id is the task event's id) *)
+        duprpc == e.kind = "rpc" /\ \E r \in s.rpcs : r.corr = e.corr
     IN R(s1,
          Chk(routedok, "ENV", "RoutedToDeclaredQueue")
+         \o ChkX(~duprpc, "C04", "NoDuplicateRequest", x, e.corr)
          \o ChkX(~(isev /\ byengine /\ e.exec # "" /\ e.exec \in s.fr.ackedX), "C03", "TriggerAckLast:pub", e.exec,
                  [retry |-> e.retry, depth |-> Len(e.stack), trigdepth |-> MaxTrigDepth(s)])
          \o ChkX(~(isev /\ byengine /\ e.exec # "" /\ IsTerminalX(s, e.exec)), "C02", "NoLateEffects:pub", e.exec, e.state)
@@ -274,7 +280,7 @@ StepEnd(s, e) ==
 StepQuiesce(s, e) ==
     LET zs == e.sizes
         allterm == AllTerminal(s)
-        notterm == {x \in DOMAIN s.ex : Len(s.ex[x].notes) # 2}
+        notterm == {x \in DOMAIN s.ex : LastNote(s, x) \notin Terminal}
     IN R(s,
          (IF e.level = "D0" /\ allterm
           THEN ChkW(\A i \in 1..Len(zs) : DrainedD0(zs[i], e.nunacked), "C03", "DrainedD0", zs)
@@ -287,10 +293,15 @@ StepQuiesce(s, e) ==
                   \o ChkW(e.queued = <<>>, "C03", "DrainedD1:queued", e.queued)
              ELSE <<>>))
 
+(* the engine process is gone: its timers die with it; with the file-backed configuration the
+   execution records and histories (in-memory stores) are lost too *)
 StepConnLost(s, e) ==
     R([s EXCEPT !.b = ConnectionLost(@, e.conn),
                 !.timers = {t \in @ : t.conn # e.conn},
-                !.crashed = TRUE], <<>>)
+                !.crashed = TRUE,
+                !.ex = IF s.store = "file" /\ ~e.clean
+                       THEN [x \in DOMAIN @ |-> [@[x] EXCEPT !.hasrec = FALSE, !.recstable = FALSE, !.hist = <<>>, !.pendingNote = FALSE]]
+                       ELSE @], <<>>)
 
 McOf(mc, name) == LET j == CHOOSE j \in 1..Len(mc) : mc[j].state = name IN mc[j].n
 
@@ -307,6 +318,14 @@ StepOther(s, e) ==
       [] e.k = "storeerr" -> R(s, FX("ENV", "StoreReadable", "", e.err))
       [] e.k = "escaped"  -> R(s, FX("C18", "NoEscapedException", "", e.err))
       [] e.k = "histcut"  -> R(s, FX("C09", "HistoryNeverShrinks", e.exec, ""))
+      [] e.k = "expect"   ->
+           (* the outcome of the crash-free twin of this run (same scenario, same schedule prefix) *)
+           LET ex0 == Ex(s, e.exec)
+               last == IF ex0.notes = <<>> THEN "" ELSE ex0.notes[Len(ex0.notes)]
+               same == last = e.status /\ (~ex0.hasrec \/ ~ex0.recstable \/ ex0.rec.status # e.status
+                                            \/ (ex0.rec.output = e.output /\ ex0.rec.error = e.error))
+           IN R(s, ChkX(~e.strict \/ same, "C04", "OutcomePreserved", e.exec,
+                        [want |-> e.status, got |-> last]))
       [] OTHER -> R(s, <<>>)
 
 Step(s, e) ==
